@@ -25,9 +25,13 @@ import (
 	"github.com/kubewharf/kubebrain/pkg/storage"
 )
 
+// maxWriteConflictRetry is how often a batch is run again in a new transaction after an optimistic write conflict
+const maxWriteConflictRetry = 5
+
 type batch struct {
-	txn  *txnkv.KVTxn
-	list []func(ctx context.Context) error
+	txn   *txnkv.KVTxn
+	begin func() (*txnkv.KVTxn, error)
+	list  []func(ctx context.Context) error
 }
 
 func (b *batch) PutIfNotExist(key []byte, val []byte, ttl int64) {
@@ -114,14 +118,28 @@ func (b *batch) Commit(ctx context.Context) (err error) {
 			b.txn.Rollback()
 		}
 	}()
-	for _, f := range b.list {
-		err = f(ctx)
-		if err != nil {
-			return err
+	for retry := 0; ; retry++ {
+		for _, f := range b.list {
+			err = f(ctx)
+			if err != nil {
+				return err
+			}
 		}
-	}
 
-	err = b.txn.Commit(ctx)
+		err = b.txn.Commit(ctx)
+		if err == nil || !tikverr.IsErrWriteConflict(err) || b.begin == nil || retry >= maxWriteConflictRetry || ctx.Err() != nil {
+			break
+		}
+		// a write conflict only says that another transaction touched a key of this batch since it began, even one
+		// that is still in flight or was rolled back. It is not a failed compare: run the batch again in a new
+		// transaction, where a compare fails if the stored value really differs by now.
+		txn, beginErr := b.begin()
+		if beginErr != nil {
+			break
+		}
+		b.txn.Rollback()
+		b.txn = txn
+	}
 
 	if err != nil {
 		if tikverr.IsErrWriteConflict(err) {
